@@ -94,6 +94,10 @@ def _run_one(args):
             if v["kind"] == "B" and v.get("accept_analysis_error"):
                 return (v["id"], "ok", f"analysis-error: {e}")
             return (v["id"], "fail", f"analysis error: {e}")
+        if ctx.shortfalls and not ctx.violations:
+            if v["kind"] == "B" and v.get("accept_analysis_error"):
+                return (v["id"], "ok", "analysis-error: " + ctx.shortfalls[0])
+            return (v["id"], "fail", "analysis error: " + ctx.shortfalls[0])
         rules = sorted({x.rule for x in ctx.violations})
         if v["kind"] == "B":
             want = v.get("rule")
